@@ -42,6 +42,14 @@ func Harness_C06_run() {
 	mux := verifMap{}
 	var batch jmessages
 	withBuiltin := nondetBool("with-builtin")
+	// a gated notification ahead of the calls: members of one message run
+	// concurrently, so it must not hold up the calls behind it
+	noteFirst := nondetBool("gated-notification-first")
+	if noteFirst {
+		log.gates["first"] = make(chan struct{})
+		mux["first"] = log.handler("first", nil, nil)
+		batch = append(batch, &jmessage{M: "first", batch: true})
+	}
 	for i := 0; i < ncalls; i++ {
 		name := "c" + verifItoa(i)
 		log.gates[name] = make(chan struct{})
@@ -59,6 +67,9 @@ func Harness_C06_run() {
 	}
 	nresp := len(batch)
 	if withNote {
+		nresp--
+	}
+	if noteFirst {
 		nresp--
 	}
 	s := NewServer(mux, &ServerOptions{Concurrency: limit})
@@ -83,12 +94,21 @@ func Harness_C06_run() {
 			waiting = append(waiting, i)
 		}
 	}
-	vassert(len(waiting) == ncalls-limit, "exactly the calls beyond the limit are waiting")
+	if noteFirst {
+		// the notification holds one slot; the calls share the rest
+		vassert(len(waiting) >= ncalls-limit, "the calls beyond the free slots are waiting")
+		vassert(len(waiting) > 0 || limit > ncalls, "a waiting call exists to be cancelled")
+	} else {
+		vassert(len(waiting) == ncalls-limit, "exactly the calls beyond the limit are waiting")
+	}
 	victim := waiting[nondetChoice("victim", len(waiting))]
 	s.CancelRequest(verifItoa(victim + 1))
 	quiesce()
 	vassert(log.find("c"+verifItoa(victim)) == nil, "C06: a call cancelled while waiting for a slot never runs its handler")
 	// let everything finish
+	if noteFirst {
+		close(log.gates["first"])
+	}
 	for i := 0; i < ncalls; i++ {
 		close(log.gates["c"+verifItoa(i)])
 	}
